@@ -41,8 +41,8 @@ ASSUMPTIONS = [
     "passwords are printable text (no control characters); a password supplied for an unencrypted key and wrong passwords are outside the property",
     "the OSCCA (SM2) and PQC key types are not installed here and are not exercised",
 ]
-FLOORS = {"lz_coord": 0.03, "lz_rs": 0.15, "lz_total:1-3": 0.01, "pw": 0.04, "der_sig": 0.06, "prehashed": 0.03, "pad:pss": 0.015,
-          "curve:secp521r1": 0.08, "der_len_eq_raw_len": 0.005, "der_len_eq_own_raw_len": 0.002, "cli:convert:RAW": 0.001}
+FLOORS = {"lz_coord": 0.015, "lz_rs": 0.075, "lz_total:1-3": 0.005, "pw": 0.02, "der_sig": 0.03, "prehashed": 0.015, "pad:pss": 0.0075,
+          "curve:secp521r1": 0.04, "der_len_eq_raw_len": 0.0025, "der_len_eq_own_raw_len": 0.001, "cli:convert:RAW": 0.0005}
 
 CURVES = ("secp256r1", "secp384r1", "secp521r1")
 DEFAULT_ALG = {"secp256r1": "sha256", "secp384r1": "sha384", "secp521r1": "sha512"}
@@ -1106,10 +1106,10 @@ def parts(ctx):
     _WORK["dir"] = os.path.join(ctx.work, "c08")
     return [
         EnumPart("rsa_keys", _rsa_keys_count, _rsa_keys_item, run_rsa_keys, exhaustive=False),
-        HypPart("ec_keys", _ec_keys_case(), run_ec_keys, {"quick": 1000, "thorough": 60000}),
-        HypPart("ec_sign", _ec_sign_case(), run_ec_sign, {"quick": 1000, "thorough": 60000}),
-        HypPart("ec_refsig", _ec_refsig_case(), run_ec_refsig, {"quick": 1000, "thorough": 60000}),
-        HypPart("sig_codec", _sig_codec_case(), run_sig_codec, {"quick": 4000, "thorough": 300000}),
-        HypPart("rsa_sign", _rsa_sign_case(), run_rsa_sign, {"quick": 1000, "thorough": 40000}),
-        HypPart("cli", _cli_case(), run_cli, {"quick": 400, "thorough": 15000}),
+        HypPart("ec_keys", _ec_keys_case(), run_ec_keys, {"quick": 600, "thorough": 60000}),
+        HypPart("ec_sign", _ec_sign_case(), run_ec_sign, {"quick": 600, "thorough": 60000}),
+        HypPart("ec_refsig", _ec_refsig_case(), run_ec_refsig, {"quick": 600, "thorough": 60000}),
+        HypPart("sig_codec", _sig_codec_case(), run_sig_codec, {"quick": 3000, "thorough": 300000}),
+        HypPart("rsa_sign", _rsa_sign_case(), run_rsa_sign, {"quick": 500, "thorough": 40000}),
+        HypPart("cli", _cli_case(), run_cli, {"quick": 200, "thorough": 15000}),
     ]
